@@ -43,7 +43,7 @@ def fragment_before(code, line, column):
 
 def run_text(rec, code, path, positions, methods=ALL_METHODS, outside=(), project=None,
              monitors=(apimon.position_monitor,), deep=True, witness=None, cap=40,
-             check_fragment=True):
+             check_fragment=True, extra_texts=None):
     w = dict(witness or {})
     w['path'] = str(path)
     ok, script = apimon.call(rec, 'Script', jedi.Script, code, path=path, project=project,
@@ -51,6 +51,7 @@ def run_text(rec, code, path, positions, methods=ALL_METHODS, outside=(), projec
     if not ok:
         return None
     texts = {str(path): code}
+    texts.update(extra_texts or {})     # other project files results may point into
 
     def text_of(p):
         if p is None:
